@@ -160,8 +160,13 @@ def run(spec):
         rcfg = dict(cfg, maxiter=int(ck.nit) + 2)
         rwant = fresh.fresh_digests([{"problem": spec["problem"], "cfg": cfg, "restart": {"maxiter": int(ck.nit) + 2}}])[0]
 
+        same_obj = int(P.spec["seed"]) % 2 == 1  # the usual idiom x0=res.x, checkpoint=res: the start array *is* the checkpoint's
+        if same_obj:
+            rcfg["x0_same_object"] = True
+            out.count("restarts_started_from_the_checkpoints_own_array")
+
         def restart(hooks=None):
-            return probes.run_min(P, rcfg, hooks=hooks, checkpoint=ck, x0=np.array(ck.x, dtype=float, copy=True))
+            return probes.run_min(P, rcfg, hooks=hooks, checkpoint=ck, x0=ck.x if same_obj else np.array(ck.x, dtype=float, copy=True))
 
         rb = restart()
         if rb.exc is None and not rwant.startswith("raised") and fresh.digest_state(rb.snap) == rwant:
